@@ -16,22 +16,23 @@ from pbt.core import Result, silence, exc_sig
 
 ID = "C27"
 LEVEL = "exploration"
-EXAMPLES = {"quick": 1280, "thorough": 24000}
-DEADLINE_S = {"quick": 240, "thorough": 3000}
+EXAMPLES = {"quick": 640, "thorough": 16000}
+DEADLINE_S = {"quick": 480, "thorough": 3000}
 TECHNIQUE = "property-based testing: operation histories (lists of JSON operations) + abstract set model compared after every step"
 RULE = ("Hypothesis draws a network recipe (netgen.grid, <=12 buses, all element kinds, switches, out-of-service parts) and a "
-        "history of 3-20 operations: create_group / create_group_from_dict (index / 'name' / 'rid' reference columns, explicit "
+        "history of 4-21 operations (thorough: -31): create_group / create_group_from_dict (index / 'name' / 'rid' reference columns, explicit "
         "or free group index), attach_to_group(s) (new types, overlapping members, differing reference column), "
         "detach_from_group(s) (one / several / all groups, scalar or list), drop_group, drop_group_and_elements, toolbox drops "
         "(drop_elements, drop_elements_simple, drop_buses with/without cascade, drop_lines, drop_trafos, drop_elements_at_buses, "
-        "drop_inner_branches, drop_out_of_service_elements, drop_inactive_elements), reindex_elements (lookup / new+old / all; "
+        "drop_inner_branches, drop_out_of_service_elements, drop_inactive_elements, drop of the branch behind a grouped switch), reindex_elements (lookup / new+old / all; "
         "partial or complete), reindex_buses, create_continuous_bus_index / _elements_index, reindex of the group table, "
-        "set_group_reference_column, set_group_in/out_of_service, set_value_to_group, runpp + group_res_p_mw/q_mvar. "
+        "set_group_reference_column, set_group_in/out_of_service, set_value_to_group, runpp + group_res_p_mw/q_mvar, and an 'observe' "
+        "step (count_group_elements, isin_group, element_associated_groups must report the model membership). "
         "Arguments are positions resolved against the current state. Oracle after EVERY step: group_element_index(g, et) equals "
         "the model set (reference-value sets resolved against the current table) for every group and type, a (group, type) row "
         "exists iff the set is non-empty, no duplicated rows, group names unchanged, groups not targeted keep their members, "
         "pure group operations leave all element-table indices alone, in/out-of-service and set_value change exactly the "
-        "members' cells, drop_group_and_elements drops exactly the members, group_res_* equals the signed sum over the model "
+        "members' cells, drop_group_and_elements drops exactly the members, after an element drop no row still stores (reference values of) dropped elements, group_res_* equals the signed sum over the model "
         "members. Non-trivial = every step executed, a member set grew (create/attach) and later shrank by detach or an "
         "element drop, and >= 2 groups coexisted; distinct by case hash.")
 ASSUMPTIONS = [
@@ -46,9 +47,11 @@ ASSUMPTIONS = [
     "'f22' normalises a null reference column through the public set_group_reference_column(net, g, None, et) before "
     "attaching to an existing index row; 'shared-drop' applies drop_group_and_elements only to groups that share no member "
     "with another group; 'switch-cascade' does not drop buses whose switches are group members; 'partial-lookup' pads "
-    "reindex lookups with identity entries; 'inner' keeps drop_inner_branches away from grouped impedances/switches",
+    "reindex lookups with identity entries; 'inner' keeps drop_inner_branches away from grouped impedances/switches; 'eag-scalar' calls "
+    "element_associated_groups only with lists",
+    "when no group is left an attach operation creates a group from its members (keeps histories busy)",
 ]
-SHRINK_S = {"quick": 25, "thorough": 90}
+SHRINK_S = {"quick": 10, "thorough": 60}
 
 # element types that may become group members (order = preference for small drawn integers)
 ETS = ["bus", "line", "load", "switch", "sgen", "trafo", "gen", "ext_grid", "shunt", "storage", "ward", "xward",
@@ -65,7 +68,7 @@ PROFILE = netgen.profile(nb_max=10, max_per_bus=2, oos=0.15, open_prob=0.3, nosl
 
 DROP_FNS = ["drop_elements", "drop_elements", "drop_elements_simple", "drop_buses", "drop_buses_keep", "drop_lines",
             "drop_trafos", "drop_elements_at_buses", "drop_inner_branches", "drop_out_of_service_elements",
-            "drop_inactive_elements"]
+            "drop_inactive_elements", "drop_switched_branch", "drop_switched_branch"]
 BUS_CASCADE = ("drop_buses", "drop_elements_at_buses", "drop_out_of_service_elements", "drop_inactive_elements")
 REINDEX_FORMS = ["lookup", "lookup", "new_old", "new_all", "buses", "cont_bus", "cont_all"]
 KINDS = {"create": 4, "attach": 8, "detach": 6, "drop_group": 1, "drop_group_and_elements": 2, "drop": 5, "reindex": 5,
@@ -128,11 +131,12 @@ def _op(draw, kind=None):
 def _case(draw, tier):
     recipe = draw(netgen.grid(PROFILE))
     avoid = [a for a in AVOID if draw(st.sampled_from([True, True, True, False]))]
-    first = draw(_op("create"))
-    rest = draw(st.lists(_op(), min_size=2, max_size=19 if tier == "quick" else 29))
+    first = [draw(_op("create")), draw(_op("create"))]
+    n = draw(st.integers(2, 18 if tier == "quick" else 28))
+    rest = draw(st.lists(_op(), min_size=n, max_size=n))
     if draw(st.integers(0, 2)):
         rest.append({"op": "results"})
-    return {"recipe": recipe, "name_null": draw(st.sampled_from([0, 0, 3, 4])), "avoid": avoid, "ops": [first] + rest}
+    return {"recipe": recipe, "name_null": draw(st.sampled_from([0, 0, 3, 4])), "avoid": avoid, "ops": first + rest}
 
 
 def strategy(tier):
@@ -326,6 +330,12 @@ class Run:
                 else:
                     self.fail("%s/%s/%s" % (c, where, kind), g=g, et=et, reported=sorted(got, key=str),
                               expected=sorted(exp, key=str))
+            elif dropping and (g, et) in M.rows and M.rows[(g, et)]["rc"] is not None and (g, et) in rows_real and \
+                    self.raw_set(g, et) - M.rows[(g, et)]["set"]:
+                # reference-column row: the dropped elements' values are still stored (invisible to group_element_index now,
+                # but the row survives when its last existing member leaves) - attribute it to the drop that caused it
+                self.fail("%s/dropped-not-detached%s" % (c, dropping_et(et)), g=g, et=et,
+                          stale_values=sorted(self.raw_set(g, et) - M.rows[(g, et)]["set"], key=str)[:6])
             elif (g, et) in rows_real and not exp:
                 raw = net.group.element_index[(net.group.index == g) & (net.group.element_type == et).values].iloc[0]
                 if dropping and hasattr(raw, "__len__") and len(raw):
@@ -353,6 +363,11 @@ class Run:
         if self.res.failures:
             raise Stop()
 
+    def raw_set(self, g, et):
+        net = self.net
+        raw = net.group.element_index[(net.group.index == g) & (net.group.element_type == et).values].iloc[0]
+        return {_plain(v) for v in raw} if hasattr(raw, "__iter__") and not isinstance(raw, str) else {_plain(raw)}
+
     # ---- operations
     def resolve_parts(self, parts, rc, existing_group=None, member_type=False):
         """-> list of (et, rc, labels, passed values); one part per element type; reference-column parts only use
@@ -366,6 +381,10 @@ class Run:
             if et in seen:
                 continue
             pool = self.labels(et)
+            if et == "switch":
+                # rare kinds first (transformer switches, then bus-bus switches): small drawn positions reach them
+                kind = self.net.switch.et.to_dict()
+                pool.sort(key=lambda l: {"t": 0, "t3": 0, "b": 1}.get(kind[l], 2))
             if rc is not None:
                 col = self.net[et][rc]
                 pool = [l for l in pool if not _isnull(col.at[l])]
@@ -419,7 +438,8 @@ class Run:
         pp, M, net = self.pp, self.M, self.net
         g0 = self.group(op["g"])
         if g0 is None:
-            return False
+            # no group left (all dropped / emptied): the members start a new group instead
+            return self.op_create({"op": "create", "parts": op["parts"], "rc": op["rc"], "via_dict": False, "index": None})
         gs = [g0]
         if op.get("multi"):
             allg = M.groups()
@@ -617,6 +637,19 @@ class Run:
         fn = op["fn"]
         types = self.types()
         mtypes = sorted({et for (_, et) in M.rows}, key=ETS.index)
+        forced = None
+        if fn == "drop_switched_branch":
+            # drop the line / transformer behind a switch that is a group member (trafo switches first: they are rare)
+            sw = net.switch.loc[[l for l in sorted(self.grouped_switches()) if l in net.switch.index]]
+            sw = sw[sw.et.isin(["l", "t", "t3"])]
+            if not len(sw):
+                fn = "drop_lines"
+            else:
+                tr = sw[sw.et != "l"]
+                row = (tr if len(tr) and op["idx"][0] % 3 else sw).iloc[op["idx"][-1] % (len(tr) if len(tr) and op["idx"][0] % 3 else len(sw))]
+                forced = ({"l": "line", "t": "trafo", "t3": "trafo3w"}[row.et], _plain(row.element))
+                fn = "drop_lines" if forced[0] == "line" else "drop_trafos"
+                self.res.label("drop-branch-of-grouped-switch")
         if op.get("from_members") and mtypes:
             et = mtypes[op["et"] % len(mtypes)]
         else:
@@ -628,6 +661,8 @@ class Run:
         elif fn == "drop_trafos":
             et = "trafo3w" if (op["et"] % 2 and len(net.trafo3w)) else "trafo"
             if not len(net[et]):
+                et = "trafo3w" if et == "trafo" else "trafo"
+            if not len(net[et]):
                 return False
         elif fn == "drop_elements_simple" and et in ("bus", "line", "trafo", "trafo3w"):
             fn = "drop_elements"
@@ -635,7 +670,17 @@ class Run:
         if op.get("from_members"):
             mem = sorted(set().union(*[M.resolve(net, g, e) for (g, e) in M.rows if e == et] or [set()]))
             pool = mem or pool
+        if op.get("from_members") and fn in ("drop_lines", "drop_trafos", "drop_elements") and et in ("line", "trafo", "trafo3w"):
+            # prefer branches whose switches are group members (their switches are dropped along with them)
+            code = {"line": "l", "trafo": "t", "trafo3w": "t3"}[et]
+            sw = net.switch.loc[[l for l in sorted(self.grouped_switches()) if l in net.switch.index]]
+            via = sorted({_plain(e) for e in sw.element[sw.et == code]} & set(self.labels(et)))
+            if via:
+                pool = via
+                self.res.label("drop-branch-of-grouped-switch")
         labels = self.pick(pool, op["idx"])
+        if forced is not None and forced[1] in self.labels(forced[0]):
+            et, labels = forced[0], [forced[1]]
         if fn == "drop_inner_branches":
             labels = self.pick(self.labels("bus"), op["idx"] + [op["idx"][0] + 1, op["idx"][0] + 2])
             if len(net.line):
@@ -932,9 +977,14 @@ class Run:
                 self.fail("observe/isin_group[scalar]/differs", et=et, element=l, reported=bool(one))
             if "eag-scalar" not in self.avoid:
                 self.res.label("shape:eag-scalar")
-                one = self.call("observe/element_associated_groups[scalar]", pp.element_associated_groups, net, et, l)
-                if sorted(_plain(x) for x in one) != member_of[l]:
-                    self.fail("observe/element_associated_groups[scalar]/differs", et=et, element=l, reported=list(one),
+                # a KeyError and a wrong list are two faces of one lookup, so they share a signature
+                try:
+                    with silence():
+                        one = sorted(_plain(x) for x in pp.element_associated_groups(net, et, l))
+                except KeyError as e:
+                    one = repr(e)
+                if one != member_of[l]:
+                    self.fail("observe/element_associated_groups[scalar]/wrong-or-KeyError", et=et, element=l, reported=one,
                               expected=member_of[l])
         self.compare("observe", tables_before=before)
         return True
